@@ -80,8 +80,49 @@ def run_case(case):
             return [[rank(p), _qs(s)] for p, s in b.items()]
         return [[rank(p), "0/1"] for p in b]
 
-    ballots = []
-    for spec in case["ballots"]:
+    def apply_step(b, h, rep):
+        """one insertion / removal on the mutable ballot b, through the mutator selected by h[3] ("via")"""
+        via = h[3] if len(h) > 3 else 0
+        pr = proj(h[1])
+        if h[0] == "+":
+            if kind == "app":
+                [lambda: b.add(pr), lambda: b.update([pr]), lambda: b.__ior__({pr}),
+                 lambda: b.symmetric_difference_update([pr]) if pr not in b else b.add(pr)][via % 4]()
+            elif kind == "ord":
+                [lambda: b.append(pr), lambda: b.__setitem__(pr, None), lambda: b.update({pr: None}),
+                 lambda: b.setdefault(pr), lambda: b.__ior__({pr: None})][via % 5]()
+            else:
+                v = _num(h[2], rep)
+                [lambda: b.__setitem__(pr, v), lambda: b.update({pr: v}), lambda: b.__ior__({pr: v}),
+                 lambda: b.setdefault(pr, v) if pr not in b else b.update([(pr, v)]),
+                 lambda: b.update(**{}) or b.update(((pr, v),))][via % 5]()
+        else:
+            if kind == "app":
+                [lambda: b.discard(pr), lambda: b.remove(pr) if pr in b else None, lambda: b.__isub__({pr}),
+                 lambda: b.difference_update([pr]), lambda: b.intersection_update([x for x in b if x != pr])][via % 5]()
+            else:
+                def _popitem():
+                    if len(b) and list(b)[-1] == pr:
+                        b.popitem()
+                    else:
+                        b.pop(pr, None)
+
+                def _clear():
+                    if list(b) == [pr]:
+                        b.clear()
+                    else:
+                        b.pop(pr, None)
+
+                def _del():
+                    if pr in b:
+                        del b[pr]
+                [lambda: b.pop(pr, None), _del, _popitem, _clear][via % 4]()
+
+    specs = case["ballots"]
+    ballots = [None] * len(specs)          # version index -> the (shared) Python object
+    for j, spec in enumerate(specs):
+        if spec.get("base") is not None:
+            continue
         hist = spec["hist"]
         nc = spec.get("ctor", 0)
         rep = spec.get("numrep", "int")
@@ -91,9 +132,7 @@ def run_case(case):
         if spec["meta"]:
             kw["meta"] = dict(METAS[spec["meta"]])
         head = hist[:nc]
-        if kind == "app":
-            b = BallotC([proj(h[1]) for h in head], **kw)
-        elif kind == "ord":
+        if kind in ("app", "ord"):
             b = BallotC([proj(h[1]) for h in head], **kw)
         else:
             d = {}
@@ -101,25 +140,31 @@ def run_case(case):
                 d[proj(h[1])] = _num(h[2], rep)
             b = BallotC(d, **kw)
         for h in hist[nc:]:
-            if h[0] == "+":
-                if kind == "app":
-                    b.add(proj(h[1]))
-                elif kind == "ord":
-                    b.append(proj(h[1]))
-                else:
-                    b[proj(h[1])] = _num(h[2], rep)
-            else:
-                if kind == "app":
-                    b.discard(proj(h[1]))
-                else:
-                    b.pop(proj(h[1]), None)
-        ballots.append(b)
+            apply_step(b, h, rep)
+        ballots[j] = b
+
+    # a superseded version is observed (content, frozen form) at the moment just before the object is edited again
+    snap = {}
+
+    def edits_due(t):
+        for j, spec in enumerate(specs):
+            if spec.get("base") is not None and spec.get("edit_at", 0) == t and ballots[j] is None:
+                i = spec["base"]
+                b = ballots[i]
+                if b is None:
+                    raise ValueError("version %d edited before its base exists" % j)
+                snap[i] = (items_of(b), b.frozen(), [name_id(b.name), meta_id(b.meta)])   # freezes: primes any cache
+                for h in spec["hist"][len(specs[i]["hist"]):]:
+                    apply_step(b, h, spec.get("numrep", "int"))
+                ballots[j] = b
 
     ops = case["ops"]
     mp = None
-    rest = ops
+    rest = list(enumerate(ops))
+    edits_due(0)
     if ops and ops[0][0] in ("conv", "profile", "init"):
-        first, rest = ops[0], ops[1:]
+        first = ops[0]
+        rest = rest[1:]
         sel = [ballots[i] for i in first[1]]
         if first[0] == "conv":
             mp = ProfileC(sel, instance=inst).as_multiprofile()
@@ -129,7 +174,8 @@ def run_case(case):
             mp = MultiC([b.frozen() for b in sel], instance=inst)
     if mp is None:
         mp = MultiC(instance=inst)
-    for op in rest:
+    for t, op in rest:
+        edits_due(t)
         if op[0] == "append":
             mp.append(ballots[op[1]].frozen())
         elif op[0] == "extend":
@@ -138,22 +184,35 @@ def run_case(case):
             mp.extend([ballots[i].frozen() for i in op[1]])
         elif op[0] == "extend_profile":
             mp.extend(ProfileC([ballots[i] for i in op[1]], instance=inst))
+        elif op[0] == "extend_conv":
+            # a second conversion: the ballots go through as_multiprofile of a fresh profile, then in one by one
+            for k, c in ProfileC([ballots[i] for i in op[1]], instance=inst).as_multiprofile().items():
+                for _ in range(c):
+                    mp.append(k)
         else:
             raise ValueError("unknown op " + str(op))
+    for t in range(len(ops), len(ops) + 2):
+        edits_due(t)
 
-    fz = [b.frozen() for b in ballots]
+    cur_items, fz, mids = [], [], []
+    for j in range(len(specs)):
+        if j in snap:
+            cur_items.append(snap[j][0]); fz.append(snap[j][1]); mids.append(snap[j][2])
+        else:
+            b = ballots[j]
+            cur_items.append(items_of(b)); fz.append(b.frozen()); mids.append([name_id(b.name), meta_id(b.meta)])
     out = {
         "mp_type": type(mp).__name__,
-        "iter": [items_of(b) for b in ballots],
+        "iter": cur_items,
         "len": len(mp),
         "num": int(mp.num_ballots()),
-        "mult": [int(mp.multiplicity(b.frozen())) for b in ballots],
+        "mult": [int(mp.multiplicity(f)) for f in fz],
         "entries": [[items_of(k), int(c)] for k, c in mp.items()],
         "eq": [[bool(x == y) for y in fz] for x in fz],
         "heq": [[hash(x) == hash(y) for y in fz] for x in fz],
         "frozen": [[items_of(f), name_id(f.name), meta_id(f.meta)] for f in fz],
         "frozen_type_ok": all(type(f) is FrozenC for f in fz),
-        "mutable_ids": [[name_id(b.name), meta_id(b.meta)] for b in ballots],
+        "mutable_ids": mids,
     }
     return out
 
